@@ -17,6 +17,10 @@ C. Use - convert - use on ONE object (entry points that go through loading_at / 
    objects are permanently converted (pressure, loading, material, temperature, combined), the entry point is run again;
    the second result is judged against the first by the same clauses, and against what freshly converted copies give
    (nothing may differ, whatever the class of the representation - so a recorded finding cannot mask a stale cache).
+D. Fixtures whose pressure cannot be read as p/p0 (supercritical CO2 at 35 degC; an adsorbate without backend and without
+   saturation pressure) through every one-isotherm entry point x every absolute pressure unit (+ constructible loading /
+   material representations): the OUTCOME CLASS must be invariant as well - refused as stored => refused in every
+   representation (InvarianceTrace clause answered_in_this_representation_but_refused_as_stored), returned => equal.
 """
 import math
 import random
@@ -259,6 +263,8 @@ def signature(v, ans, vd):
     if not judged:
         return None, clauses
     coarse = sorted({COARSE.get(c, c) for c in judged})
+    if "results_differ" in coarse and "shape_changed" in coarse:
+        coarse.remove("shape_changed")      # (result arrays whose length follows from the differing values, e.g. Whittaker's loading grid)
     sig = {"site": v.an, "plan_class": cls, "observed": "+".join(coarse)}
     if v.outcome == "raised":
         sig["exception"] = v.res
@@ -504,6 +510,7 @@ def main(tier, seed):
                  "{sample, reference/further isotherm, all} x {every pressure representation; per loading / material basis the requested unit and "
                  + ("every other unit" if thorough else "2 seeded others") + "; degC; full-product samples; JSON round trip; loadings x 1/3, x 7; use - convert - use histories on one object "
                  "(alpha_s, isosteric_enthalpy, Whittaker) judged against the first use and against freshly converted copies}; "
+                 "two fixtures without a relative pressure through the one-isotherm entry points x every absolute pressure unit (outcome class invariant); "
                  "per run every result key and every array handed to the numeric core (up to " + str(limit) + " elements per array incl. the worst one); "
                  "non-trivial = representation or scale actually changed; distinct = distinct (entry, fixture, role, target representation / factor)")
     run.assume("adsorbate/material property methods define psat, M, densities (C20); every fixture material is given density 1.737 g/cm3 and molar mass 419.3 g/mol")
